@@ -158,7 +158,7 @@ def ldst_word(rng, thumb):
     return hi << 16 | lo
 
 
-def _one_shot_case(rng, word, thumb, mode, te, regs, mpu, sct_extra=None, arch=7):
+def _one_shot_case(rng, word, thumb, mode, te, regs, mpu, sct_extra=None, arch=7, top=False):
     """program = [word, b .] with vectors/handlers; DATA is a recording RAM"""
     rets = {k: (P.RETURNS_THUMB if te else P.RETURNS_ARM)[k][0] for k in ('irq', 'fiq', 'svc', 'und')}
     rets['dabt'] = 'subs8'
@@ -167,7 +167,17 @@ def _one_shot_case(rng, word, thumb, mode, te, regs, mpu, sct_extra=None, arch=7
     code = emit(words, thumb)
     devices = G.std_devices(rec_data=True, high=False)
     G.set_data(devices[0], 0, low)
-    G.set_data(devices[1], 0, code)
+    base = G.CODE
+    if top:
+        mpu = list(mpu)
+        mpu[11] = (1 | 11 << 1, 0xFFFFF000, 3 << 8)          # (the page is reachable whatever the lower-numbered regions say)
+        # the program occupies the LAST bytes of the address space (instruction + 8 passes 2^32)
+        base = 0x100000000 - len(code)
+        hi = {'kind': 'ram', 'begin': 0xFFFFF000, 'end': 0x100000000}
+        G.set_data(hi, 0x1000 - len(code), code)
+        devices.append(hi)
+    else:
+        G.set_data(devices[1], 0, code)
     cfg = {'arch_version': arch, 'have_security_ext': False, 'have_virt_ext': False, 'have_lpae': False, 'memory_system_architecture': 'PMSA', 'number_of_mpu_regions': 12}
     cfg.update(G.impdef_switches(rng))           # implementation-defined choices must not touch DFAR/DFSR status/WnR of MPU and alignment faults
     ee = int(rng.random() < 0.3)
@@ -178,8 +188,9 @@ def _one_shot_case(rng, word, thumb, mode, te, regs, mpu, sct_extra=None, arch=7
     from sim.models.banking import phys
     for i, v in enumerate(regs):
         st['R'][phys(i, M.MODES[mode])] = v          # the registers the main mode sees (banked SP/LR, R8-R12 in FIQ mode)
-    core = {'config': cfg, 'devices': devices, 'regs': st, 'done_pc': G.CODE + len(code) - (2 if thumb else 4)}
-    meta = {'thumb': thumb, 'te': te, 'mode': mode, 'returns': rets, 'main_lo': G.CODE, 'main_hi': G.CODE + len(code), 'handlers': {k: list(v) for k, v in hinfo.items()}}
+    st['pc'] = base
+    core = {'config': cfg, 'devices': devices, 'regs': st, 'done_pc': base + len(code) - (2 if thumb else 4)}
+    meta = {'thumb': thumb, 'te': te, 'mode': mode, 'returns': rets, 'main_lo': base, 'main_hi': base + len(code), 'handlers': {k: list(v) for k, v in hinfo.items()}}
     return core, meta
 
 
@@ -234,6 +245,7 @@ def gen_deny(rng):
     pc_load = rng.random() < 0.3
     arch = rng.choice([6, 7, 7])
     srs = mode == 'svc' and rng.random() < 0.25
+    top = rng.random() < 0.12 and not pc_load
     for _ in range(60):
         w = ldst_word(rng, thumb)
         if srs:
@@ -256,7 +268,7 @@ def gen_deny(rng):
         regs = [rng.choice([D + 8 * rng.randrange(-8, 8), D + 4 * rng.randrange(-16, 16), rng.randrange(0, 40), 4 * rng.randrange(0, 16)]) for _ in range(15)]
         regs[13] = D + 8 * rng.randrange(-4, 8)
         mpu = base_mpu(rng, deny_kind, shape)
-        core, meta = _one_shot_case(rng, w if not thumb or w > 0xFFFF else w, thumb, mode, te, regs, mpu, arch=arch)
+        core, meta = _one_shot_case(rng, w if not thumb or w > 0xFFFF else w, thumb, mode, te, regs, mpu, arch=arch, top=top)
         if srs:
             for bank in ('usr', 'svc', 'irq', 'fiq', 'und'):
                 core['regs']['R']['SP' + bank] = D + 8 * rng.randrange(-4, 8)
@@ -664,7 +676,7 @@ def gen_align(rng):
             mpu[8] = (1 | 7 << 1, G.INTC, 3 << 8)
         else:
             mpu[DREG] = (1 | 9 << 1, G.DATA + 0x400 - 0x200 if False else (G.DATA + 0x400) & ~0x3FF, (0 if dk == 'none' else 6) << 8)
-    core, meta = _one_shot_case(rng, word, thumb, mode, te, regs, mpu, {}, arch=rng.choice([6, 7]))   # ARMv6 with U=1: unaligned MemA accesses fault like on ARMv7
+    core, meta = _one_shot_case(rng, word, thumb, mode, te, regs, mpu, {}, arch=rng.choice([6, 7]), top=rng.random() < 0.1)   # ARMv6 with U=1: unaligned MemA accesses fault like on ARMv7
     core['regs']['sys']['sctlr'] = G.sctlr_value(m=m_bit, a=a_bit, u=1, te=te, v=0, br=0 if also_denied else 1, ee=(core['regs']['sys']['sctlr'] >> 25) & 1)
     return {'scenario': 'align', 'cores': [core], 'meta': meta, 'word': word, 'kind': kind, 'first': first, 'size': size, 'rn': rn, 'wb': wb, 'write': kind in ('str', 'strh', 'strd', 'stm', 'push', 'push_w', 'strex', 'strexh', 'strexd'),
             'events': [], 'max_ticks': 200, 'also_denied': also_denied}
@@ -713,17 +725,30 @@ def gen_revoke(rng):
     mpu = [(0, 0, 0)] * 12
     mpu[0] = (1 | 31 << 1, 0, 3 << 8)
     mpu[DREG] = (0 | 7 << 1, P.DBASE, rng.choice([0, 0, 5, 6]) << 8)          # the main program's data page (256 B), initially not enabled
+    swap = rng.choice([None, None, 'acr', 'all'])
+    if swap:
+        # two regions over the data page, the higher-numbered one permissive; the revocation EXCHANGES their programming (access control only, or
+        # size/base/access control), the grant exchanges it back: the set of register values is the same before and after, only their places differ
+        mpu[7] = (1 | 7 << 1, P.DBASE, rng.choice([0, 0, 5, 6]) << 8 | rng.getrandbits(6))
+        mpu[8] = ((1 | 7 << 1, P.DBASE, 3 << 8 | rng.getrandbits(6)) if swap == 'acr' else (1 | 9 << 1, P.DBASE & ~0x3FF, 3 << 8 | rng.getrandbits(6)))
     core, meta = build_program_case(rng, allow=('alu', 'mem', 'mem', 'stack', 'loop', 'cond', 'it', 'multi'), extra_sys=dict(G.mpu_sys(mpu, nu=rng.getrandbits(1))), rec_data=False)
     core['regs']['sys']['sctlr'] = G.sctlr_value(m=1, a=0, u=1, te=meta['te'], v=0, br=1, ee=meta.get('ee', 0))
     n = fault_free_ticks(core, meta) or 300             # (a program that does not finish fault-free is reported by the run, not regenerated)
     events = []
     for _ in range(rng.choice([1, 1, 2, 3, 5])):
-        events.append({'tick': rng.randrange(0, max(1, n)), 'core': 0, 'kind': 'sys', 'name': 'drsrs', 'index': DREG, 'value': mpu[DREG][0] | 1, 'tag': 'mpu-revoke'})
+        t = rng.randrange(0, max(1, n))
+        if swap:
+            for j, nme in enumerate(('drsrs', 'drbars', 'dracrs')):
+                if swap == 'all' or nme == 'dracrs':
+                    events.append({'tick': t, 'core': 0, 'kind': 'sys', 'name': nme, 'index': 7, 'value': mpu[8][j], 'tag': 'mpu-swap-part'})
+                    events.append({'tick': t, 'core': 0, 'kind': 'sys', 'name': nme, 'index': 8, 'value': mpu[7][j], 'tag': 'mpu-revoke' if nme == 'dracrs' else 'mpu-swap-part'})
+            continue
+        events.append({'tick': t, 'core': 0, 'kind': 'sys', 'name': 'drsrs', 'index': DREG, 'value': mpu[DREG][0] | 1, 'tag': 'mpu-revoke'})
     if rng.random() < 0.4:
         events.append({'tick': rng.randrange(0, max(1, n)), 'core': 0, 'kind': rng.choice(['irq', 'fiq'])})
     events.sort(key=lambda e: e['tick'])
     hl = sum(v[2] for v in meta['handlers'].values())
-    return {'scenario': 'revoke', 'cores': [core], 'meta': meta, 'events': events, 'clean_ticks': n, 'max_ticks': n + (len(events) + 2) * (hl + 10) * 3 + 64}
+    return {'scenario': 'revoke', 'cores': [core], 'meta': meta, 'events': events, 'clean_ticks': n, 'swap': [list(mpu[7]), list(mpu[8])] if swap else None, 'max_ticks': n + (len(events) + 2) * (hl + 10) * 3 + 64}
 
 
 def run_revoke(case):
@@ -739,7 +764,11 @@ def run_revoke(case):
         intc = M.device_at(arm, G.INTC)
 
         def grant():
-            arm.registers.drsrs[DREG].value &= ~1
+            r = arm.registers
+            r.drsrs[DREG].value &= ~1
+            if case.get('swap'):
+                for i in (0, 1):
+                    r.drsrs[7 + i].value, r.drbars[7 + i], r.dracrs[7 + i].value = case['swap'][i]
             b.count('fault.mpu-grant')
         intc.on_grant = grant
         b.observers = [mon, vr, rc, RangeMonitor(report=False)]
